@@ -9,12 +9,15 @@
 //   - exactly one of KILL / updateTaskStatus happens for every status, KILL only for reconciliation
 //     updates, and nothing else has a say (a test that also looks at the status, lock or state of
 //     the roster task - seeded C18-2 - is rejected),
-//   - core/task/scheduler.go: reconciliationCall sends calls.Reconcile(calls.ReconcileTasks(nil)) and
-//     is installed in the SUBSCRIBED chain after controller.TrackSubscription; NewManager reads and
-//     writes the runtime entry aliecs/mesos_fid,
+//   - core/task/scheduler.go: the handler reconciliationCall returns sends
+//     calls.Reconcile(calls.ReconcileTasks(nil)) on EVERY event it handles (reconcile_every_subscribed:
+//     false if the call is under any condition - a latch, a counter: seeded C18-3) and is installed in
+//     the SUBSCRIBED chain after controller.TrackSubscription; NewManager reads and writes the runtime
+//     entry aliecs/mesos_fid,
 //   - whether doKillTasks sends KILL only to the ACTIVE tasks of the set it removes from the roster
 //     or to the others as well (kill_inactive; the repair of C06-b added the second loop),
 //   - which Mesos states make updateTaskStatus set a roster task ACTIVE / INACTIVE.
+//
 // Clean-ups that leave the decision alone (helper extraction, || chain <-> switch, early returns,
 // enum instead of name comparison, named constants, renamed or hoisted locals, reordering) give the
 // same tables.
@@ -316,26 +319,56 @@ func reconcileRule() string {
 
 	// scheduler.go: reconciliationCall and its place in the SUBSCRIBED chain
 	_, sf := parseFile("core/task/scheduler.go")
-	rc := findFunc(sf, "schedulerState", "reconciliationCall")
+	rc := rcMethod(pkg, "schedulerState", "reconciliationCall")
 	if rc == nil {
 		die("schedulerState.reconciliationCall not found")
 	}
-	if !rcHasCall(rc.Body, "calls", "Reconcile") || !rcHasCall(rc.Body, "calls", "ReconcileTasks") || !rcHasCall(rc.Body, "calls", "CallNoData") {
-		die("reconciliationCall no longer sends calls.Reconcile(calls.ReconcileTasks(..))")
-	}
-	implicit := false
-	ast.Inspect(rc.Body, func(x ast.Node) bool {
-		if c, ok := x.(*ast.CallExpr); ok {
-			if s, ok := c.Fun.(*ast.SelectorExpr); ok && s.Sel.Name == "ReconcileTasks" && len(c.Args) == 1 {
-				if id, ok := c.Args[0].(*ast.Ident); ok && id.Name == "nil" {
-					implicit = true
-				}
+	// the handler it returns: is the implicit RECONCILE sent on EVERY event it handles, or only under
+	// some condition (a latch, a counter, the state of the roster ...)?
+	rw := &symWalk{pkg: pkg, recvType: "schedulerState", markers: map[string]*form{}, maxDepth: 3}
+	rw.onCall = func(w *symWalk, c *ast.CallExpr, env *senv) string {
+		sel, ok := c.Fun.(*ast.SelectorExpr)
+		if !ok {
+			return ""
+		}
+		if id, ok := sel.X.(*ast.Ident); ok && id.Name == "calls" && strings.HasPrefix(sel.Sel.Name, "Call") && len(c.Args) >= 3 {
+			switch w.val(c.Args[2], env).kind {
+			case svReconcileImplicit:
+				return "reconcile"
+			case svReconcileExplicit:
+				die("reconciliationCall: the task list of the RECONCILE call is not nil (the model assumes implicit reconciliation)")
 			}
 		}
-		return true
-	})
-	if !implicit {
-		die("reconciliationCall: the task list is not nil (the model assumes implicit reconciliation)")
+		return ""
+	}
+	rw.walk(rc.Body.List, fT, (&senv{}).child())
+	if rw.markers["reconcile"] == nil {
+		die("reconciliationCall no longer sends calls.Reconcile(calls.ReconcileTasks(nil))")
+	}
+	everySubscribed := true
+	{
+		set := map[string]bool{}
+		rw.markers["reconcile"].atoms(set)
+		var as []string
+		for a := range set {
+			as = append(as, a)
+		}
+		sort.Strings(as)
+		if len(as) > 16 {
+			die("reconciliationCall: too many conditions (%d)", len(as))
+		}
+		for mask := 0; mask < 1<<len(as); mask++ {
+			if !rw.markers["reconcile"].eval(func(a string) bool {
+				for i, x := range as {
+					if x == a {
+						return mask&(1<<i) != 0
+					}
+				}
+				return false
+			}) {
+				everySubscribed = false
+			}
+		}
 	}
 	beh := findFunc(sf, "schedulerState", "buildEventHandler")
 	if beh == nil {
@@ -546,6 +579,8 @@ func reconcileRule() string {
 	b.WriteString("].\n")
 	b.WriteString("(* does that test also look the task up in the roster of the current life? *)\n")
 	fmt.Fprintf(&b, "Definition recon_guarded : bool := %v.\n", guarded)
+	b.WriteString("(* reconciliationCall (installed in the SUBSCRIBED chain): is the implicit RECONCILE sent on every\n   SUBSCRIBED event, unconditionally? *)\n")
+	fmt.Fprintf(&b, "Definition reconcile_every_subscribed : bool := %v.\n", everySubscribed)
 	b.WriteString("(* doKillTasks (KillTasks, Cleanup): do the tasks of the set that are not ACTIVE get a KILL call too? *)\n")
 	fmt.Fprintf(&b, "Definition kill_inactive : bool := %v.\n", killInactive)
 	b.WriteString("(* the states in which Mesos considers a task alive (mesos.proto: non-terminal, reachable) *)\n")
